@@ -676,12 +676,19 @@ start:
 	}
 
 	processPhis := func(b *ir.BasicBlock, i int, s state) state {
+		// All phis of a block execute in parallel: every incoming value has
+		// to be read before any of the phis is updated, as one phi may be the
+		// incoming value of another (e.g. variables swapped in a loop).
+		var incoming []ValueNilness
 		for _, instr := range b.Instrs {
 			if instr, ok := instr.(*ir.Phi); ok {
-				s.set(instr, s.get(instr.Edges[i]))
+				incoming = append(incoming, s.get(instr.Edges[i]))
 			} else {
 				break
 			}
+		}
+		for j, instr := range b.Instrs[:len(incoming)] {
+			s.set(instr.(*ir.Phi), incoming[j])
 		}
 		return s
 	}
